@@ -313,6 +313,8 @@ class Gen:
                 base = self.int_type()
                 w = self.r.choice([1, 2, 3, 5, 7, 8, 9, 13, 15, 16, 17, 24, 31, 32, 33, 48, 63, 64, self.r.randint(1, 64)])
                 w = min(w, base.bits)
+                if self.cfg.get("portable") and base.c in ("long", "unsigned long"):
+                    w = min(w, 32)      # long is 32 bits on ILP32 / LLP64 targets
             if self.r.random() < self.cfg["p_bf_anon"]:
                 fields.append(Field(None, base, bits=w))
             else:
